@@ -79,7 +79,7 @@ def gen(rng, tier, i):
     ncol = LAYOUT_COLS[layout]
     n_b = rng.choice([1, 1, 2, 2, 3, 4, 6, 8])
     if rng.random() < (0.004 if tier == "quick" else 0.01):
-        n_b = rng.choice([40, 200, 1294, 1295])
+        n_b = rng.choice([40, 200]) if tier == "quick" else rng.choice([40, 200, 900, 1294, 1295])
     t = Fr(0) if rng.random() < 0.94 else Fr(rng.choice([500, 1234.5, -250, 3]))
     segs = []          # (start exact, bpm double, measures)
     for k in range(n_b):
